@@ -302,7 +302,7 @@ func (cs *ContractSet) parseFile(path, pkg string) error {
 				return fail("assigns outside a block")
 			}
 			cur.HasAssign = true
-			for _, a := range strings.Split(rest, ",") {
+			for _, a := range splitTopLevel(rest) {
 				if a = strings.TrimSpace(a); a != "" && a != "nothing" {
 					cur.Assigns = append(cur.Assigns, a)
 				}
@@ -483,4 +483,24 @@ func matchParen(s string, i int) int {
 		}
 	}
 	return -1
+}
+
+// splitTopLevel splits at commas that are not inside parentheses or brackets.
+func splitTopLevel(s string) []string {
+	var out []string
+	depth, start := 0, 0
+	for i, c := range s {
+		switch c {
+		case '(', '[':
+			depth++
+		case ')', ']':
+			depth--
+		case ',':
+			if depth == 0 {
+				out = append(out, s[start:i])
+				start = i + 1
+			}
+		}
+	}
+	return append(out, s[start:])
 }
